@@ -281,19 +281,24 @@ def run(prog, rep, tier='quick'):
     # ---------------- tools helpers
     HELP = [('twosided_2_onesided', 'twosided', 'onesided'), ('onesided_2_twosided', 'onesided', 'twosided'),
             ('twosided_2_centerdc', 'twosided', 'centerdc'), ('centerdc_2_twosided', 'centerdc', 'twosided')]
+    Aff.SYM_MIN['j'] = 2
+    m_generic = m
+    halves = [(m_generic, ''), (Aff(0, {'j': F(2)}), ', NFFT//2 even'), (Aff(1, {'j': F(2)}), ', NFFT//2 odd')]
     for fname, s, t in HELP:
-        f = prog.func('tools', fname)
+      f = prog.func('tools', fname)
+      for half, hl in halves:
+        globals()['m'] = half         # sizes() / ref_maps() are written in terms of m = NFFT//2
         for parity in ('even', 'odd'):
             if fname == 'onesided_2_twosided' and parity == 'odd':
                 # a one-sided vector of length h fits NFFT = 2(h-1) and NFFT = 2h-1; the helper has no NFFT argument
                 # and documents the even reading (get_converted_psd, which knows NFFT, is checked for both parities)
                 continue
             N, h = sizes(parity)
-            C.nfft(parity)
+            C.nfft(parity, half=half)
             x = base_array('X', h if s == 'onesided' else N)
             v, itp = C.run_function(prog, 'tools', fname, [x], {})
             n_tools += 1
-            label = '%s [NFFT %s]' % (fname, parity)
+            label = '%s [NFFT %s%s]' % (fname, parity, hl)
             where = loc(f.mod, f.node)
             if blocked(rep, 'tools-helper', f.qname, label, itp):
                 continue
@@ -312,6 +317,7 @@ def run(prog, rep, tier='quick'):
             else:
                 rep.violation('tools-helper', f.qname, label, '%s differs from the axis-aligned map: got %s ; required %s'
                               % (classify(segs, refs, N, h, t), S.show(segs), S.show(refs[0])), where)
+    globals()['m'] = m_generic
     # arma2psd(sides='centerdc') must be the twosided->centerdc map of the model spectrum
     f = prog.func('arma', 'arma2psd')
     for parity in ('even', 'odd'):
